@@ -12,10 +12,10 @@ VARIABLE l
 ToSet(s) == {s[i] : i \in 1..Len(s)}
 
 TrKinds    == {"k0", "k1", "k2", "k3"}
-TrPaths    == {"p0", "p1", "p2", "p3", "p4", "p5", "p6", "p7", "p8"}
+TrPaths    == {"p0", "p1", "p2", "p3", "p4", "p5", "p6", "p7", "p8", "p9"}
 TrContents == {"c0", "c1", "c2", "c3", "c4", "c5", "c6", "c7", "c8", "c9", "c10", "c11", "c12", "c13",
                "c14", "c15", "c16", "c17", "c18", "c19", "other"}
-TrTypes    == {"string", "textfile", "textfiles", "binary", "dataframe", "ondisk", "csvframe", "csv2pq"}
+TrTypes    == {"string", "textfile", "textfiles", "binary", "dataframe", "ondisk", "csvframe", "csv2pq", "csvlegacy"}
 TrArity    == [t \in TrTypes |-> IF t = "textfiles" THEN 2 ELSE 1]
 
 FullRefs(r) == [p \in Paths |-> IF p \in DOMAIN r THEN r[p] ELSE Absent]
